@@ -1,5 +1,9 @@
 import CLModel.Proto
 import CLModel.Lint.Linter
+import CLModel.Lint.Run
+import CLModel.Lint.Util
+import CLModel.Lint.Cli
+import CLModel.Lint.Keyed
 namespace Ops.C19
 open Proto Lint
 
@@ -99,6 +103,241 @@ def opLinecol (toks : List String) : String :=
     | _, _ => "bad-args"
   | _ => "bad-args"
 
+/-! ## round 4: the run with its state, getChecker, lint/util.py, lint/cli.py main, KeyedTuple fall-backs -/
+
+/-- run <n> file*n  ->  `ok | result | … ;; asked <path>*` or `raise <exception>` -/
+def opRun (toks : List String) : String :=
+  match toks with
+  | n :: rest =>
+    match (do let (fs, r) ← pMany pFile (← parseNat n) rest; if r.isEmpty then pure fs else none) with
+    | some fs =>
+      match lintRun fs with
+      | .ok st => " | ".intercalate ("ok" :: st.results.map showResult) ++ " ;; asked" ++
+                  String.join (st.asked.map (fun p => " " ++ showText p))
+      | .error x => "raise " ++ x
+    | none => "bad-args"
+  | _ => "bad-args"
+
+/-- getchecker <path> -> `<class name> <needs_reference>` -/
+def opGetChecker (toks : List String) : String :=
+  match toks with
+  | [p] =>
+    match parseText p with
+    | some p =>
+      let c := getCheckerCls p
+      match c.name, c.needsReference with
+      | some n, some b => showText n ++ (if b then " 1" else " 0")
+      | _, _ => "no-table"
+    | none => "bad-args"
+  | _ => "bad-args"
+
+/-! ### wire format of the real Matcher / ProjectFiles objects -/
+
+def pBool : String → Option Bool
+  | "1" => some true | "0" => some false | _ => none
+
+def pOptText : String → Option (Option Text)
+  | "-" => some none
+  | t => (parseText t).map some
+
+/-- `L <text>` | `V <rep> <name>` | `A <rep>` | `S <n>` | `D <n> <suffix>` -/
+def pNode : List String → Option (PM.Node × List String)
+  | "L" :: t :: rest => do pure (.lit (← parseText t), rest)
+  | "V" :: r :: n :: rest => do pure (.var (← parseText n) (← pBool r), rest)
+  | "A" :: r :: rest => do pure (.android (← pBool r), rest)
+  | "S" :: n :: rest => do pure (.star (← parseNat n), rest)
+  | "D" :: n :: s :: rest => do pure (.starstar (← parseNat n) (← parseText s), rest)
+  | _ => none
+
+/-- `<root|-> <prefix_length> <n> node*n` -/
+def pPattern : List String → Option (PM.Pattern × List String)
+  | root :: pl :: n :: rest => do
+    let (nodes, r) ← pMany pNode (← parseNat n) rest
+    pure ({ nodes := nodes, root := ← pOptText root, prefixLen := ← parseNat pl }, r)
+  | _ => none
+
+def pEnvEntry : List String → Option ((Text × PM.Val) × List String)
+  | k :: rest => do
+    let (p, r) ← pPattern rest
+    pure ((← parseText k, .pat p), r)
+  | _ => none
+
+/-- `M <pattern> <n> (name pattern)*n` -/
+def pMatcher : List String → Option (PM.Matcher × List String)
+  | "M" :: rest => do
+    let (p, r1) ← pPattern rest
+    match r1 with
+    | n :: r2 =>
+      let (env, r3) ← pMany pEnvEntry (← parseNat n) r2
+      pure ({ pattern := p, env := env }, r3)
+    | _ => none
+  | _ => none
+
+def pOptMatcher : List String → Option (Option PM.Matcher × List String)
+  | "-" :: rest => some (none, rest)
+  | toks => do let (m, r) ← pMatcher toks; pure (some m, r)
+
+def pTextTok : List String → Option (Text × List String)
+  | t :: rest => do pure (← parseText t, rest)
+  | _ => none
+
+/-- `-` | `<n> text*n` -/
+def pTests : List String → Option (Option LintUtil.Tests × List String)
+  | "-" :: rest => some (none, rest)
+  | n :: rest => do let (ts, r) ← pMany pTextTok (← parseNat n) rest; pure (some ts, r)
+  | _ => none
+
+/-- `<l10n matcher> <reference|-> <merge|-> <tests>` -/
+def pRule (toks : List String) : Option (LintUtil.Rule × List String) := do
+  let (l, r1) ← pMatcher toks
+  let (rf, r2) ← pOptMatcher r1
+  let (mg, r3) ← pOptMatcher r2
+  let (ts, r4) ← pTests r3
+  pure ({ l10n := l, reference := rf, merge := mg, test := ts }, r4)
+
+/-- `F <locale|-> <n> rule*n (X | F …)`; the first argument bounds the nesting of `exclude` -/
+def pFiles : Nat → List String → Option (LintUtil.Files × List String)
+  | 0, _ => none
+  | d + 1, "F" :: loc :: n :: rest => do
+    let (rules, r1) ← pMany pRule (← parseNat n) rest
+    match r1 with
+    | "X" :: r2 => pure (.mk (← pOptText loc) rules none, r2)
+    | r2 => do
+      let (ex, r3) ← pFiles d r2
+      pure (.mk (← pOptText loc) rules (some ex), r3)
+  | _, _ => none
+
+def showOptT : Option Text → String
+  | some t => showText t
+  | none => "None"
+
+def showTests : Option LintUtil.Tests → String
+  | none => "None"
+  | some ts => "{" ++ ",".intercalate (ts.map showText) ++ "}"
+
+def showRefTests (rt : LintUtil.RefTests) : String := showOptT rt.1 ++ " " ++ showTests rt.2
+
+def pUtilMode : String → Option LintUtil.Mode
+  | "default" => some .default | "l10n_base" => some .l10nBase | "mirror" => some .mirror | _ => none
+
+/-- refs <mode> <root> <files> <n> path*n  ->  `<ref|None> <tests|None>` per path, joined by ` | ` -/
+def opRefs (toks : List String) : String :=
+  match toks with
+  | mode :: root :: rest =>
+    match (do
+      let (files, r1) ← pFiles 4 rest
+      match r1 with
+      | n :: r2 =>
+        let (ps, r3) ← pMany pTextTok (← parseNat n) r2
+        if r3.isEmpty then pure (← pUtilMode mode, ← parseText root, files, ps) else none
+      | _ => none) with
+    | some (mode, root, files, ps) =>
+      " | ".intercalate (ps.map (fun p =>
+        match LintUtil.getRefTests mode files root p with
+        | .ok rt => showRefTests rt
+        | .error e => "raise " ++ LintCli.showPyErr e))
+    | none => "bad-args"
+  | _ => "bad-args"
+
+def pFsEntry : List String → Option ((Text × List RefEnt) × List String)
+  | p :: n :: rest => do
+    let (rs, r) ← pMany pRefEnt (← parseNat n) rest
+    pure ((← parseText p, rs), r)
+  | _ => none
+
+def pRelEntry : List String → Option ((Text × Text) × List String)
+  | a :: b :: rest => do pure ((← parseText a, ← parseText b), rest)
+  | _ => none
+
+/-- main <W> <l10n_reference|-> <ref_project|-> <split locale> <isdir> <ref root> <files> <nfs> (path n ref*n)*
+         <nlinted> file* <nrel> (path rel)*
+    -> `usage` | `raise <exc>` | `done <rv> ;; <path> <ref> <tests> | … ;; <result> | … ;; <printed line> | …` -/
+def opMain (toks : List String) : String :=
+  match toks with
+  | w :: lr :: rp :: sl :: isd :: root :: rest =>
+    match (do
+      let (files, r1) ← pFiles 4 rest
+      match r1 with
+      | nfs :: r2 =>
+        let (fs, r3) ← pMany pFsEntry (← parseNat nfs) r2
+        match r3 with
+        | nl :: r4 =>
+          let (ls, r5) ← pMany pFile (← parseNat nl) r4
+          match r5 with
+          | nr :: r6 =>
+            let (rel, r7) ← pMany pRelEntry (← parseNat nr) r6
+            if !r7.isEmpty then none else
+            let inp : LintCli.MainIn :=
+              { w := ← pBool w, l10nReference := ← pOptText lr, refProject := ← pOptText rp, splitLocale := ← parseText sl,
+                isdir := ← pBool isd, files := files, refRoot := ← parseText root, fs := fs,
+                linted := ls.map (fun (f : FileIn) => ({ path := f.path, contents := f.contents, cur := f.cur } : LintCli.Linted)) }
+            pure (inp, rel)
+          | _ => none
+        | _ => none
+      | _ => none) with
+    | some (inp, rel) =>
+      match LintCli.main inp with
+      | .usage => "usage"
+      | .raised x => "raise " ++ x
+      | .done rv tr results =>
+        let relOf : Text → Text := fun p => match rel.lookup p with | some r => r | none => p
+        s!"done {rv} ;; " ++ " | ".intercalate (tr.map (fun (x : Text × LintUtil.RefTests) => showText x.1 ++ " " ++ showRefTests x.2)) ++ " ;; " ++
+          " | ".intercalate (results.map showResult) ++ " ;; " ++
+          showText (LintCli.stdoutText relOf results)
+    | none => "bad-args"
+  | _ => "bad-args"
+
+def pOptInt : String → Option (Option Int)
+  | "-" => some none
+  | t => (parseInt t).map some
+
+/-- `<level> <lineno|-> <column|-> <message> <relative path>` -/
+def pRaw : List String → Option ((Text × LintCli.RawResult) × List String)
+  | lv :: ln :: col :: msg :: rel :: rest => do
+    pure ((← parseText rel, { level := ← parseText lv, lineno := ← pOptInt ln, column := ← pOptInt col, message := ← parseText msg }), rest)
+  | _ => none
+
+/-- cliout <W> <n> raw*n  ->  `<return value of main> <stdout>` for a linter that returned these result dicts -/
+def opCliOut (toks : List String) : String :=
+  match toks with
+  | w :: n :: rest =>
+    match (do
+      let (rs, r) ← pMany pRaw (← parseNat n) rest
+      if r.isEmpty then pure (← pBool w, rs) else none) with
+    | some (w, rs) =>
+      let results : List PResult := rs.map (fun (x : Text × LintCli.RawResult) => (x.1, x.2.toResult))
+      s!"{LintCli.exitCode results w} " ++ showText (LintCli.stdoutText (fun p => p) results)
+    | none => "bad-args"
+  | _ => "bad-args"
+
+def pItem : List String → Option ((Nat × Nat) × List String)
+  | k :: i :: rest => do pure ((← parseNat k, ← parseNat i), rest)
+  | _ => none
+
+def pQuery : List String → Option LintKeyed.Query
+  | ["K", k] => (parseNat k).map .key
+  | ["O", i] => (parseNat i).map .item
+  | ["U"] => some .unhashable
+  | ["I", i] => (parseInt i).map .index
+  | _ => none
+
+/-- keyed <n> (key ident)*n <query>  ->  `<contains> <ident of kt[q] | raise …>` -/
+def opKeyed (toks : List String) : String :=
+  match toks with
+  | n :: rest =>
+    match (do
+      let (items, r) ← pMany pItem (← parseNat n) rest
+      pure (items, ← pQuery r)) with
+    | some (items, q) =>
+      (if LintKeyed.contains items q then "1 " else "0 ") ++
+        (match LintKeyed.getItem items q with
+         | .ok x => toString x.2
+         | .error e => "raise " ++ e)
+    | none => "bad-args"
+  | _ => "bad-args"
+
 def ops : List (String × (List String → String)) :=
-  [("c19.lint", opLint), ("c19.getparser", opGetParser), ("c19.linecol", opLinecol)]
+  [("c19.lint", opLint), ("c19.getparser", opGetParser), ("c19.linecol", opLinecol),
+   ("c19.run", opRun), ("c19.getchecker", opGetChecker), ("c19.refs", opRefs), ("c19.main", opMain),
+   ("c19.cliout", opCliOut), ("c19.keyed", opKeyed)]
 end Ops.C19
